@@ -333,7 +333,7 @@ Section Block.
       change (1 <? 1) with false. cbv iota.
       unfold commit_hash. cbn [c_sigs map all_some]. rewrite root_nil.
       change (bytes_to_hash []) with zero_hash. rewrite !bytes_eqb_refl. cbn [negb map forallb].
-      unfold evidence_hash. rewrite bytes_eqb_refl. reflexivity. }
+      reflexivity. }
     split; [apply V|]. split; [apply V|reflexivity].
   Qed.
 End Block.
